@@ -240,6 +240,11 @@ func (s *Script) evalWithRoot(stack, data, root any) (any, Expr) {
 		data = da
 	}
 	sstack := make([]any, len(s.template))
+	// A script that is just a path, as in [?(@.x)], is an existence test.
+	var bare bool
+	if len(s.template) == 1 {
+		_, bare = s.template[0].(Expr)
+	}
 	var v any
 	for vi := dlen - 1; 0 <= vi; vi-- {
 		switch td := data.(type) {
@@ -353,7 +358,9 @@ func (s *Script) evalWithRoot(stack, data, root any) (any, Expr) {
 			}
 		}
 		var match bool
-		if multi {
+		if bare {
+			match = sstack[0] != Nothing
+		} else if multi {
 			max := 1
 			for _, v := range sstack {
 				if mv, ok := v.(multivalue); ok {
